@@ -174,6 +174,9 @@ const SPIN_LIMIT: u64 = 400;
 pub struct Heart {
     pub tick: AtomicU64,
     pub busy: AtomicBool,
+    /// CPU-time clock of the execution thread (an endless loop burns CPU; a thread that is merely starved or blocked
+    /// on an overloaded machine does not)
+    pub cpu_clock: libc::clockid_t,
     pub exec: Mutex<Option<(Arc<Mutex<ExecRecord>>, String, bool)>>,
 }
 
@@ -201,7 +204,11 @@ impl std::ops::Deref for HeartReg {
 
 thread_local! {
     static HEART: HeartReg = {
-        let h = Arc::new(Heart { tick: AtomicU64::new(0), busy: AtomicBool::new(false), exec: Mutex::new(None) });
+        let mut cid: libc::clockid_t = 0;
+        if unsafe { libc::pthread_getcpuclockid(libc::pthread_self(), &mut cid) } != 0 {
+            cid = -1;
+        }
+        let h = Arc::new(Heart { tick: AtomicU64::new(0), busy: AtomicBool::new(false), cpu_clock: cid, exec: Mutex::new(None) });
         HEARTS.lock().unwrap().push(h.clone());
         HeartReg(h)
     };
@@ -211,17 +218,42 @@ fn hang_secs() -> u64 {
     std::env::var("VERIF_HANG_SECS").ok().and_then(|s| s.parse().ok()).unwrap_or(30)
 }
 
+fn thread_cpu_secs(cid: libc::clockid_t) -> Option<f64> {
+    if cid == -1 {
+        return None;
+    }
+    let mut ts = libc::timespec { tv_sec: 0, tv_nsec: 0 };
+    if unsafe { libc::clock_gettime(cid, &mut ts) } == 0 { Some(ts.tv_sec as f64 + ts.tv_nsec as f64 / 1e9) } else { None }
+}
+
 fn watchdog() {
-    let mut last: HashMap<usize, (u64, Instant)> = HashMap::new();
+    let mut last: HashMap<usize, (u64, Instant, Option<f64>)> = HashMap::new();
     loop {
         std::thread::sleep(std::time::Duration::from_millis(500));
         let hearts: Vec<Arc<Heart>> = HEARTS.lock().unwrap().clone();
         last.retain(|k, _| hearts.iter().any(|h| Arc::as_ptr(h) as usize == *k));
         for h in hearts.iter() {
             let t = h.tick.load(Ordering::Relaxed);
-            let e = last.entry(Arc::as_ptr(h) as usize).or_insert((t, Instant::now()));
+            let cpu = thread_cpu_secs(h.cpu_clock);
+            let e = last.entry(Arc::as_ptr(h) as usize).or_insert((t, Instant::now(), cpu));
             if !h.busy.load(Ordering::Relaxed) || t != e.0 {
-                *e = (t, Instant::now());
+                *e = (t, Instant::now(), cpu);
+                continue;
+            }
+            // an endless loop inside one poll keeps its thread on a CPU: the verdict needs the wall-clock limit AND
+            // at least two thirds of it spent on the CPU by that very thread. A thread that does not advance
+            // without burning CPU is starved or blocked (overloaded machine): after twenty times the limit that is a
+            // machinery error, never a verdict (a thorough run on a heavily loaded machine once reported a
+            // poll-never-returns violation on the unchanged tree before this distinction existed).
+            let burnt = match (cpu, e.2) {
+                (Some(now), Some(then)) => now - then,
+                _ => f64::MAX,
+            };
+            if e.1.elapsed().as_secs() >= hang_secs() && burnt < hang_secs() as f64 * 2.0 / 3.0 {
+                if e.1.elapsed().as_secs() >= 20 * hang_secs() {
+                    eprintln!("MACHINERY ERROR: an execution thread made no progress for {} s while using {:.1} s of CPU (starved or blocked)", e.1.elapsed().as_secs(), burnt);
+                    std::process::exit(2);
+                }
                 continue;
             }
             if e.1.elapsed().as_secs() >= hang_secs() {
